@@ -269,11 +269,11 @@ func qname(f *types.Func) string {
 type Verdict string
 
 const (
-	Holds     Verdict = "holds"
-	Violated  Verdict = "violated"
-	Allowed   Verdict = "allowed"
-	Known     Verdict = "known-finding"
-	Info      Verdict = "info"
+	Holds    Verdict = "holds"
+	Violated Verdict = "violated"
+	Allowed  Verdict = "allowed"
+	Known    Verdict = "known-finding"
+	Info     Verdict = "info"
 )
 
 type Obligation struct {
@@ -436,26 +436,26 @@ func (r *Report) finish(tier string, seed int, start time.Time, verifDir string,
 	discharged := verd[string(Holds)] + verd[string(Allowed)] + verd[string(Known)]
 	total := len(r.Obs) - verd[string(Info)]
 	cov := map[string]interface{}{
-		"explanation":          r.Explanation,
-		"not_covered":          r.NotCovered,
-		"obligations":          total,
-		"discharged":           discharged,
-		"evaluations":          len(r.Obs),
-		"distinct_nontrivial":  len(distinct),
-		"rule":                 "one obligation per (rule, code construct) found by resolving callees/types in /repo's current source; distinct = distinct obligation keys, info-only entries excluded",
-		"per_rule":             perRule,
-		"verdicts":             verd,
-		"functions_analysed":   fns,
-		"samples":              samples,
-		"all_obligation_keys":  keysOf(r.Obs),
-		"checker_cmd":          fmt.Sprintf("bin/bleveverif -prop %s -tier %s -repo %s", r.Prop, tier, r.P.Repo),
-		"trusted_base":         r.Trusted,
-		"load":                 loadInfo,
-		"exhaustive":           false,
+		"explanation":         r.Explanation,
+		"not_covered":         r.NotCovered,
+		"obligations":         total,
+		"discharged":          discharged,
+		"evaluations":         len(r.Obs),
+		"distinct_nontrivial": len(distinct),
+		"rule":                "one obligation per (rule, code construct) found by resolving callees/types in /repo's current source; distinct = distinct obligation keys, info-only entries excluded",
+		"per_rule":            perRule,
+		"verdicts":            verd,
+		"functions_analysed":  fns,
+		"samples":             samples,
+		"all_obligation_keys": keysOf(r.Obs),
+		"checker_cmd":         fmt.Sprintf("bin/bleveverif -prop %s -tier %s -repo %s", r.Prop, tier, r.P.Repo),
+		"trusted_base":        r.Trusted,
+		"load":                loadInfo,
+		"exhaustive":          false,
 	}
 	ev := evidence{PropertyID: r.Prop, Tier: tier, Seed: seed, Level: "other", Coverage: cov,
 		Assumptions: append([]string{"default build tags only: the 15 files under //go:build vectors need cgo+faiss and are not analysed", "test files are not analysed", "third-party modules are used for type/callee resolution only"}, r.Assumptions...),
-		WallS: time.Since(start).Seconds(), Violations: nviol}
+		WallS:       time.Since(start).Seconds(), Violations: nviol}
 	evDir := filepath.Join(verifDir, "evidence")
 	os.MkdirAll(evDir, 0o755)
 	b, _ := json.MarshalIndent(ev, "", " ")
